@@ -133,6 +133,120 @@ fn check_proto(l: u64, fail_open: bool, npkt: usize) -> bool {
     false
 }
 
+// ---- attach_fdt (C01 / C03 / C04 / C07 / C19): an FDT instance given as XML text, one File entry for TOI 5
+struct AttachIn { check_tl: bool, tl: Option<u64>, cl: Option<u64>, fec: Option<u8>, e: u64, b: u64, maxn: Option<u64>, cenc: u8, pre: usize, inband: bool, sbn: u32, esi: u32, plen: usize }
+
+fn cenc_attr(c: u8) -> Option<&'static str> {
+    match c { 1 => Some("null"), 2 => Some("zlib"), 3 => Some("deflate"), 4 => Some("gzip"), 5 => Some("brotli"), _ => None }
+}
+/// independent table: RFC 6726 content encodings; absent or unknown => not encoded
+fn cenc_expected(c: u8) -> lct::Cenc {
+    match c { 2 => lct::Cenc::Zlib, 3 => lct::Cenc::Deflate, 4 => lct::Cenc::Gzip, _ => lct::Cenc::Null }
+}
+
+fn mk_fdt_xml(i: &AttachIn) -> String {
+    let mut f = String::from("<File TOI=\"5\" Content-Location=\"file:///obj5\" Content-Type=\"text/plain\" Content-MD5=\"1B2M2Y8AsgTpgAmY7PhCfg==\" File-ETag=\"etag-5\"");
+    if let Some(v) = i.tl { f += &format!(" Transfer-Length=\"{}\"", v); }
+    if let Some(v) = i.cl { f += &format!(" Content-Length=\"{}\"", v); }
+    if let Some(v) = cenc_attr(i.cenc) { f += &format!(" Content-Encoding=\"{}\"", v); }
+    if let Some(v) = i.fec {
+        f += &format!(" FEC-OTI-FEC-Encoding-ID=\"{}\" FEC-OTI-Maximum-Source-Block-Length=\"{}\" FEC-OTI-Encoding-Symbol-Length=\"{}\"", v, i.b, i.e);
+        if let Some(n) = i.maxn { f += &format!(" FEC-OTI-Max-Number-of-Encoding-Symbols=\"{}\"", n); }
+    }
+    f += "><Group>file-group</Group></File>";
+    format!("<?xml version=\"1.0\" encoding=\"UTF-8\"?><FDT-Instance xmlns=\"urn:IETF:metadata:2005:FLUTE:FDT\" Expires=\"4000000000\">{}<File TOI=\"6\" Content-Location=\"file:///obj6\"/><Group>fdt-group</Group></FDT-Instance>", f)
+}
+
+/// a data packet for TOI 5 with a 4-byte FEC payload id (No-Code / RS layout: the caller composes the header word)
+fn mk_pkt5(payload_id: u32, payload_len: usize) -> Vec<u8> {
+    let mut data = Vec::new();
+    lct::push_lct_header(&mut data, 0, &0u128, 1, &5u128, 0, false, false);
+    data.extend(payload_id.to_be_bytes());
+    data.extend(vec![0x5Au8; payload_len]);
+    data
+}
+
+fn attach_input_json(i: &AttachIn) -> String {
+    format!("{{\"attach\":1,\"check_tl\":{},\"tl_some\":{},\"tl\":{},\"cl_some\":{},\"cl\":{},\"fec\":{},\"e\":{},\"b\":{},\"maxn_some\":{},\"maxn\":{},\"cenc\":{},\"pre\":{},\"inband\":{},\"sbn\":{},\"esi\":{},\"plen\":{},\"fdt_xml\":\"{}\"}}",
+        i.check_tl as u8, i.tl.is_some() as u8, i.tl.unwrap_or(0), i.cl.is_some() as u8, i.cl.unwrap_or(0), i.fec.map(|v| v as u32).unwrap_or(255), i.e, i.b,
+        i.maxn.is_some() as u8, i.maxn.unwrap_or(0), i.cenc, i.pre, i.inband as u8, i.sbn, i.esi, i.plen, mk_fdt_xml(i).replace('"', "'"))
+}
+
+/// attach the instance to a fresh ObjectReceiver (optionally after `pre` cached packets / one in-band FTI packet), compare what it
+/// stored with the entry (C01/C03/C07/C19), check the unit's invariant tl_small (C04), push one more packet, attach again (C19)
+fn check_attach(i: &AttachIn) -> bool {
+    let xml = mk_fdt_xml(i);
+    let fdt = match crate::common::fdtinstance::FdtInstance::parse(xml.as_bytes()) { Ok(f) => f, Err(_) => return false };
+    let inp = attach_input_json(i);
+    let now = SystemTime::now();
+    let res = std::panic::catch_unwind(|| -> Option<(String, String)> {
+        let mut r = mk_receiver(1 << 20);
+        let mut fail: Option<(String, String)> = None;
+        if i.inband {
+            let o = oti::Oti::new_no_code(4, 8);
+            let p = crate::common::pkt::Pkt { payload: vec![0x41u8; 4], transfer_length: 9, esi: 0, sbn: 0, toi: 5, fdt_id: None, cenc: lct::Cenc::Null,
+                inband_cenc: true, close_object: false, source_block_length: 8, sender_current_time: false };
+            let bytes = alc::new_alc_pkt(&o, &0u128, 1, &p, crate::common::Profile::RFC6726, now);
+            r.push(&alc::parse_alc_pkt(&bytes).unwrap(), now);
+        } else {
+            for k in 0..i.pre {
+                let bytes = mk_pkt5(k as u32, i.plen);
+                r.push(&alc::parse_alc_pkt(&bytes).unwrap(), now);
+            }
+        }
+        let (oti0, tl0, cenc0) = (r.oti.clone(), r.transfer_length, r.cenc);
+        let file = fdt.get_file(&5u128).expect("entry for TOI 5");
+        let ok = r.attach_fdt(7, &fdt, now);
+        let mut groups = vec!["fdt-group".to_string()];
+        groups.push("file-group".to_string());
+        let exp_cenc = match cenc0 { Some(c) => c, None => cenc_expected(i.cenc) };
+        let exp_oti = if oti0.is_some() { oti0.clone() } else { fdt.get_oti_for_file(file) };
+        let exp_tl = match tl0 { Some(l) => l, None => i.tl.or(i.cl).unwrap_or(0) };
+        let mut diffs = Vec::new();
+        if !ok { diffs.push("returned false".to_string()); }
+        if r.fdt_instance_id != Some(7) { diffs.push(format!("fdt_instance_id={:?}", r.fdt_instance_id)); }
+        if r.content_location.as_deref() != Some("file:///obj5") { diffs.push(format!("content_location={:?}", r.content_location)); }
+        if r.content_type.as_deref() != Some("text/plain") { diffs.push(format!("content_type={:?}", r.content_type)); }
+        if r.content_md5.as_deref() != Some("1B2M2Y8AsgTpgAmY7PhCfg==") { diffs.push(format!("content_md5={:?}", r.content_md5)); }
+        if r.e_tag.as_deref() != Some("etag-5") { diffs.push(format!("e_tag={:?}", r.e_tag)); }
+        if r.content_length != i.cl.map(|c| c as usize) { diffs.push(format!("content_length={:?}", r.content_length)); }
+        if r.groups != groups { diffs.push(format!("groups={:?}", r.groups)); }
+        if r.cache_control != Some(file.get_object_cache_control(fdt.get_expiration_date())) { diffs.push(format!("cache_control={:?}", r.cache_control)); }
+        if r.cenc != Some(exp_cenc) { diffs.push(format!("cenc={:?} expected {:?}", r.cenc, exp_cenc)); }
+        if format!("{:?}", r.oti) != format!("{:?}", exp_oti) { diffs.push(format!("oti={:?} expected {:?}", r.oti, exp_oti)); }
+        if r.transfer_length != Some(exp_tl) { diffs.push(format!("transfer_length={:?} expected {}", r.transfer_length, exp_tl)); }
+        if !diffs.is_empty() {
+            fail = Some((format!("after attach_fdt: {}", diffs.join(", ")), "the attributes of the File entry (C01/C03/C07/C19 clauses of attach_fdt)".to_string()));
+        }
+        // C04: invariant tl_small (precondition of init_blocks_partitioning, part of every later push's precondition)
+        if fail.is_none() && i.check_tl {
+            if let Some(l) = r.transfer_length {
+                if l >= (1u64 << 48) {
+                    fail = Some((format!("attach_fdt stored transfer_length={} (>= 2^48) unchecked and partitioned the object: nb_blocks={} a_large={} a_small={} nb_a_large={}; later pushes call partition::block_length outside its verified domain", l, r.nb_blocks, r.a_large, r.a_small, r.nb_a_large),
+                                 "transfer length < 2^48 (what EXT_FTI can carry; invariant tl_small, C07 arithmetic is verified below 2^48 only), or the entry refused".to_string()));
+                }
+            }
+        }
+        // the object stays usable: one more packet, then a second instance must be refused and change nothing
+        let header = match i.fec { Some(5) => (i.sbn << 8) | (i.esi & 0xFF), _ => (i.sbn << 16) | (i.esi & 0xFFFF) };
+        let bytes = mk_pkt5(header, i.plen);
+        r.push(&alc::parse_alc_pkt(&bytes).unwrap(), now);
+        let before = (r.fdt_instance_id, r.content_location.clone(), r.transfer_length, r.cenc, format!("{:?}", r.oti), r.groups.clone(), r.state);
+        let again = r.attach_fdt(8, &fdt, now);
+        let after = (r.fdt_instance_id, r.content_location.clone(), r.transfer_length, r.cenc, format!("{:?}", r.oti), r.groups.clone(), r.state);
+        if fail.is_none() && (again || before != after) {
+            fail = Some((format!("second attach_fdt returned {} / state changed: {:?} -> {:?}", again, before, after), "false, nothing changed (C19)".to_string()));
+        }
+        r.state = State::Error; // nothing to report on drop
+        fail
+    });
+    match res {
+        Err(_) => { report("attach_fdt", inp, "panic in attach_fdt / the pushes around it".to_string(), "no panic for any FDT attribute value (C04)".to_string()); true }
+        Ok(Some((obs, exp))) => { report("attach_fdt", inp, obs, exp); true }
+        Ok(None) => false,
+    }
+}
+
 fn num(inp: &str, k: &str) -> usize {
     inp.split(&format!("\"{}\":", k)).nth(1).unwrap().trim().split(|c: char| !c.is_ascii_digit()).next().unwrap().parse().unwrap()
 }
@@ -141,7 +255,13 @@ fn num(inp: &str, k: &str) -> usize {
 fn search() {
     if let Ok(inp) = std::env::var("VERIF_REPLAY_INPUT") {
         std::panic::set_hook(Box::new(|_| {}));
-        let bad = if inp.contains("\"limit\"") { check_cache(num(&inp, "limit"), num(&inp, "pkt_len"), num(&inp, "n")) }
+        let bad = if inp.contains("\"attach\"") {
+                let opt = |f: &str, v: &str| if num(&inp, f) == 1 { Some(num(&inp, v) as u64) } else { None };
+                check_attach(&AttachIn { check_tl: num(&inp, "check_tl") == 1, tl: opt("tl_some", "tl"), cl: opt("cl_some", "cl"), fec: if num(&inp, "fec") == 255 { None } else { Some(num(&inp, "fec") as u8) },
+                    e: num(&inp, "e") as u64, b: num(&inp, "b") as u64, maxn: opt("maxn_some", "maxn"), cenc: num(&inp, "cenc") as u8, pre: num(&inp, "pre"),
+                    inband: num(&inp, "inband") == 1, sbn: num(&inp, "sbn") as u32, esi: num(&inp, "esi") as u32, plen: num(&inp, "plen") })
+            }
+            else if inp.contains("\"limit\"") { check_cache(num(&inp, "limit"), num(&inp, "pkt_len"), num(&inp, "n")) }
             else if inp.contains("\"proto\"") { check_proto(num(&inp, "l") as u64, num(&inp, "fail_open") == 1, num(&inp, "npkt")) }
             else if inp.contains("\"fec\"") { check_push(num(&inp, "fec") as u8, num(&inp, "l") as u64, num(&inp, "e") as u16, num(&inp, "b") as u32, num(&inp, "sbn") as u32, num(&inp, "esi") as u32, num(&inp, "payload_len")) }
             else { false };
@@ -180,6 +300,49 @@ fn search() {
             }
         }
     }
+    // attach_fdt: FDT attribute values at and around every representation limit (B and E small whenever the length is large, so that
+    // the decoders the code allocates stay small)
+    let mut found3 = 0;
+    let big: [u64; 7] = [(1 << 48) - 1, 1 << 48, (1 << 48) + 1, 1 << 56, (1 << 63) + 1, u64::MAX - 1, u64::MAX];
+    let small: [u64; 6] = [0, 1, 7, 8, 9, 4000];
+    let mut attach_cases: Vec<AttachIn> = Vec::new();
+    for &tl in small.iter().chain(big.iter()) {
+        for (e, b) in [(1u64, 1u64), (4, 8), (16, 64), (2, 1 << 31), (0, 8), (4, 0), (65535, 1), (65536, 8), (65537, 8), (4, 1 << 32), (4, (1 << 32) + 8), (u64::MAX, u64::MAX)] {
+            if tl > 4000 && (b > 64 || e > 16) && !(e == 0 || b == 0 || e == 65536 || b == 1 << 32) { continue; }
+            for fec in [Some(0u8), Some(5), Some(129), Some(77), None] {
+                for (pre, inband) in [(0usize, false), (2, false), (0, true)] {
+                    attach_cases.push(AttachIn { check_tl: false, tl: Some(tl), cl: None, fec, e, b, maxn: if fec == Some(5) { Some(b.saturating_add(2)) } else { None },
+                        cenc: (tl % 6) as u8, pre, inband, sbn: 0, esi: 0, plen: std::cmp::min(e, 16) as usize });
+                }
+            }
+        }
+    }
+    for &cl in [0u64, 5, 1 << 48, u64::MAX].iter() {
+        for tl in [None, Some(5u64)] {
+            for cenc in 0u8..6 {
+                attach_cases.push(AttachIn { check_tl: false, tl, cl: Some(cl), fec: Some(0), e: 4, b: 8, maxn: None, cenc, pre: 1, inband: false, sbn: 0, esi: 1, plen: 4 });
+            }
+        }
+    }
+    for (sbn, esi) in [(0u32, 0u32), (0, 7), (1, 0), (4096, 0), (4097, 1), (65535, 65535)] {
+        for &tl in [9u64, 1 << 48, u64::MAX].iter() {
+            attach_cases.push(AttachIn { check_tl: false, tl: Some(tl), cl: None, fec: Some(0), e: 4, b: 8, maxn: None, cenc: 0, pre: 3, inband: false, sbn, esi, plen: 4 });
+        }
+    }
+    // pass 1: panics and wrong attribute values; pass 2: the invariant tl_small (one witness is enough: every large length violates it)
+    for c in attach_cases.iter() {
+        evals += 1;
+        if found3 < 2 && check_attach(c) { found3 += 1; }
+    }
+    let mut found4 = 0;
+    for c in attach_cases.iter_mut() {
+        if c.tl.unwrap_or(0) < (1 << 48) && c.cl.unwrap_or(0) < (1 << 48) { continue; }
+        c.check_tl = true;
+        evals += 1;
+        if found4 < 1 && check_attach(c) { found4 += 1; }
+    }
+    found += found4;
+    found += found3;
     println!("WSTATS {{\"evaluations\":{},\"mode\":\"search\"}}", evals);
     assert!(found == 0, "witness found");
 }
